@@ -137,7 +137,7 @@ func (s *Store) WriteCAS(res *pbresource.Resource, vsn string) error {
 
 	idx, err := incrementEventIndex(tx)
 	if err != nil {
-		return nil
+		return err
 	}
 	tx.Commit()
 
@@ -190,7 +190,7 @@ func (s *Store) DeleteCAS(id *pbresource.ID, vsn string) error {
 
 	idx, err := incrementEventIndex(tx)
 	if err != nil {
-		return nil
+		return err
 	}
 	tx.Commit()
 
